@@ -51,7 +51,7 @@ namespace glm
 		T y)
 	{
 		mat<3, 3, T, Q> Result(1);
-		Result[0][1] = y;
+		Result[1][0] = y;
 		return m * Result;
 	}
 
@@ -61,7 +61,7 @@ namespace glm
 		T x)
 	{
 		mat<3, 3, T, Q> Result(1);
-		Result[1][0] = x;
+		Result[0][1] = x;
 		return m * Result;
 	}
 
